@@ -37,12 +37,38 @@ theorem validateFileNode_safe (i : FileInfo) (buf : Bytes) : SafeU (validateFile
   refine post_bind (post_sliceFromG hhs ?_)
   exact post_pure trivial
 
+theorem post_putG {site : String} {b : Bytes} {k : Nat} {m : Meter} {Q : Unit → Meter → Prop}
+    (h : k ≤ b.length) (hq : Q () m) : Post (putG site b k) m Q := by
+  unfold putG
+  rw [if_pos h]
+  exact post_pure hq
+
+/-- the block-map scan of `validate` reads 8 bytes only where its loop condition says they exist, and
+    its fuel (`len/8 + 1` iterations) suffices -/
+theorem blockMapEndG_safe (buf : Bytes) : ∀ (fuel off : Nat) (m : Meter), buf.length < off + 8 * fuel →
+    Post (blockMapEndG buf fuel off) m (fun _ _ => True)
+  | 0, off, m, hf => by
+    rw [blockMapEndG]
+    split
+    · omega
+    · exact post_pure trivial
+  | fuel+1, off, m, hf => by
+    rw [blockMapEndG]
+    split
+    · refine post_bind (post_sliceFromG (by omega) ?_)
+      refine post_bind (post_putG (by simp; omega) ?_)
+      split
+      · exact post_pure trivial
+      · exact blockMapEndG_safe buf fuel (off + 8) m (by omega)
+    · exact post_pure trivial
+
 theorem validateFvNode_safe (i : FvInfo) (buf : Bytes) : SafeU (validateFvNodeG i buf) := by
   intro m
   unfold validateFvNodeG
   refine post_ite (fun _ => post_pure trivial) (fun _ => ?_)
   refine post_ite (fun _ => post_pure trivial) (fun _ => ?_)
   refine post_ite (fun _ => post_pure trivial) (fun _ => ?_)
+  refine post_bind' (blockMapEndG_safe buf _ 56 m (by omega)) (fun _ m1 _ => ?_)
   refine post_bind (post_sliceToG (by omega) ?_)
   exact post_pure trivial
 
@@ -110,7 +136,7 @@ theorem extractSection_safe : ∀ (s : Section), SecWf s → SafeN (extractSecti
     intro m
     split
     · exact post_pure trivial
-    · exact extractNodes_safe encap (by simp only [SecWf] at hw; exact hw.2) m
+    · exact extractNodes_safe encap (by simp only [SecWf] at hw; exact hw.2.1) m
 theorem extractNodes_safe : ∀ (ns : List Node), NodesWf ns → SafeN (extractNodesG ns)
   | [], _ => by rw [extractNodesG]; intro m; exact post_pure trivial
   | .sec s :: ns, hw => by
@@ -146,7 +172,7 @@ theorem extractFv_safe : ∀ (v : Fv), FvWf v → SafeN (extractFvG v)
   | .mk i buf files, hw => by
     rw [extractFvG]
     simp only [FvWf] at hw
-    obtain ⟨hlen, hdo, hfs⟩ := hw
+    obtain ⟨hlen, hdo, hfs, _⟩ := hw
     intro m
     split
     · exact post_pure trivial
@@ -176,7 +202,7 @@ theorem extractBios_safe (b : BiosRegion) (hw : BiosWf b) : SafeN (extractBiosG 
   unfold extractBiosG
   split
   · exact post_pure trivial
-  · exact extractElems_safe b.elems hw m
+  · exact extractElems_safe b.elems hw.1 m
 
 theorem extractRegions_safe : ∀ (rs : List Region), (∀ r ∈ rs, RegionWf r) → SafeN (extractRegionsG rs)
   | [], _ => by rw [extractRegionsG]; intro m; exact post_pure trivial
@@ -198,7 +224,7 @@ theorem extractG_safe (t : Tree) (hw : TreeWf t) (m : Meter) : Post (extractG t)
   cases t with
   | flash f =>
     rw [extractG]
-    refine post_bind' (extractRegions_safe f.regions hw m) (fun _ _ _ => post_pure trivial)
+    refine post_bind' (extractRegions_safe f.regions (fun r hr => (hw.2 r hr).1) m) (fun _ _ _ => post_pure trivial)
   | bios b => exact extractBios_safe b hw m
 
 end Fiano.Uefi.Total
